@@ -60,7 +60,7 @@ THOROUGH = QUICK + [
     _c('window_straddle', 'contract_storage', dict(T=3, win_s=(-1, 2), wacc=True)),
     _c('day_grid_day_unit_T3', 'two_node', dict(T=3, freq='d', unit='d', wacc=True)),
 ]
-GRIDV_QUICK = [('two_node', 'day_d_cet_dst'), ('take_inside', 'month_d'), ('storage_onevar_cstore', 'day_h_useast_fall')]
+GRIDV_QUICK = [('two_node', 'day_d_cet_dst'), ('take_inside', 'month_d'), ('storage_onevar_cstore', 'day_h_useast_fall'), ('storage_onevar', 'day_d_leap'), ('two_node', 'month_d_yearend')]
 BOUNDS = dict(quick='shapes %s; T<=4; Level A (efficiencies/factors generic concrete)' % [c[0] for c in QUICK],
               thorough='shapes %s; T<=4; Level B for the *_B shapes' % [c[0] for c in THOROUGH])
 OUTSIDE = ['MIP storages, CHP/Plant, order books (C06, C20)', 'negative / mixed-sign transport capacities (EAO raises NotImplementedError)',
